@@ -274,8 +274,14 @@ def check(run):
         p = os.path.join(wd, "mc_%s_%s_%s.cfg" % (b, "live" if live else "safe", "drop" if wdrop else "nodrop"))
         explorer_cfg(p, b, sw, live, wdrop)
         big = b in ("F",) or (live and b != "S")
-        return job, tlc(D, "MC_Vicinal", cfg=p, workers=8 if big else 6, timeout=3000 if thorough else 600,
-                        xmx="10g" if big else "4g", coverage=thorough and b == "S" and live and wdrop)
+        r = tlc(D, "MC_Vicinal", cfg=p, workers=8 if big else 6, timeout=3000 if thorough else 600,
+                xmx="10g" if big else "4g", coverage=thorough and b == "S" and live and wdrop)
+        m = re.search(r"Temporal properties (.*) were violated", r.out)
+        if r.error and m:      # several liveness properties violated at once: a verdict, not a tool failure
+            r.error, r.violation = None, "temporal " + m.group(1)
+            i = r.out.find("Error:")
+            r.cex = r.out[i:i + 20000]
+        return job, r
 
     model_cex = []
     with cf.ThreadPoolExecutor(max_workers=2 if thorough else 3) as ex:
